@@ -31,12 +31,19 @@ StdAA == <<"F","F","L","L","S","S","S","S","Y","Y","*","*","C","C","*","W",
            "L","L","L","L","P","P","P","P","H","H","Q","Q","R","R","R","R",
            "I","I","I","M","T","T","T","T","N","N","K","K","S","S","R","R",
            "V","V","V","V","A","A","A","A","D","D","E","E","G","G","G","G">>
-AA(w) == StdAA[16 * (NIdx(w[1]) - 1) + 4 * (NIdx(w[2]) - 1) + (NIdx(w[3]) - 1) + 1]
+(* NCBI genetic codes: 1 standard; 2 vertebrate mitochondrial (TGA=W, ATA=M, AGA=AGG=stop): a different   *)
+(* state space (60 sense codons) and a different synonymous/replacement partition for omega            *)
+CodeTable(gc) == IF gc = 2 THEN [StdAA EXCEPT ![15] = "W", ![35] = "M", ![47] = "*", ![48] = "*"] ELSE StdAA
+CodonIdx(w) == 16 * (NIdx(w[1]) - 1) + 4 * (NIdx(w[2]) - 1) + (NIdx(w[3]) - 1) + 1
+AAg(gc, w) == CodeTable(gc)[CodonIdx(w)]
+AA(w) == AAg(1, w)
 
 AllWords(L) == IF L = 1 THEN {<<a>> : a \in NucSet}
                ELSE IF L = 2 THEN {<<a, b>> : a \in NucSet, b \in NucSet}
                ELSE {<<a, b, c>> : a \in NucSet, b \in NucSet, c \in NucSet}
-States(L) == IF L \in {1, 2} THEN AllWords(L) ELSE {w \in AllWords(3) : AA(w) # "*"}
+StatesG(L, gc) == IF L \in {1, 2} THEN AllWords(L) ELSE {w \in AllWords(3) : AAg(gc, w) # "*"}
+States(L) == StatesG(L, 1)
+SM(m) == StatesG(m.L, m.gc)
 
 Diffs(i, j) == {p \in 1..Len(i) : i[p] # j[p]}
 Inst(i, j) == Cardinality(Diffs(i, j)) = 1
@@ -45,14 +52,14 @@ Purine(x) == x \in {"A", "G"}
 Transition(a, b) == a # b /\ Purine(a) = Purine(b)
 
 (* predicates, by the parameter names cogent3 uses *)
-Holds(pn, i, j) ==
+Holds(gc, pn, i, j) ==
     LET p == Pos(i, j)
         a == i[p]
         b == j[p]
     IN  CASE pn = "kappa"   -> Transition(a, b)
           [] pn = "kappa_y" -> {a, b} = {"C", "T"}
           [] pn = "kappa_r" -> {a, b} = {"A", "G"}
-          [] pn = "omega"   -> AA(i) # AA(j)
+          [] pn = "omega"   -> AAg(gc, i) # AAg(gc, j)
           [] pn = "A/C"     -> {a, b} = {"A", "C"}
           [] pn = "A/G"     -> {a, b} = {"A", "G"}
           [] pn = "A/T"     -> {a, b} = {"A", "T"}
@@ -74,10 +81,10 @@ Holds(pn, i, j) ==
           [] pn = "u_not_ac" -> ~({a, b} = {"A", "C"})
           [] pn = "u_fwd"    -> a = "A" /\ b = "G"
 
-RECURSIVE Factor(_, _, _)
-Factor(ps, i, j) == IF ps = <<>> THEN One
-                    ELSE RMul(IF Holds(Head(ps)[1], i, j) THEN Head(ps)[2] ELSE One,
-                              Factor(Tail(ps), i, j))
+RECURSIVE Factor(_, _, _, _)
+Factor(gc, ps, i, j) == IF ps = <<>> THEN One
+                    ELSE RMul(IF Holds(gc, Head(ps)[1], i, j) THEN Head(ps)[2] ELSE One,
+                              Factor(gc, Tail(ps), i, j))
 
 (* word probabilities: the distribution the calibration (and stationarity) refers to *)
 MonoProd(m, w) == IF m.L = 2 THEN RMul(m.pi[<<w[1]>>], m.pi[<<w[2]>>])
@@ -86,12 +93,12 @@ PosName(p) == CASE p = 1 -> "0" [] p = 2 -> "1" [] p = 3 -> "2"
 PosProd(m, w) == RMul(RMul(m.pi[<<"0", w[1]>>], m.pi[<<"1", w[2]>>]), m.pi[<<"2", w[3]>>])
 WordProbs(m) ==
     IF m.kind = "monomers"      \* position-specific nucleotide probabilities (codon positions differ)
-    THEN LET S == States(m.L)
+    THEN LET S == SM(m)
              raw == [w \in S |-> PosProd(m, w)]
              tot == RSumSet(S, raw)
          IN  [w \in S |-> RDiv(raw[w], tot)]
     ELSE IF m.kind = "monomer"
-    THEN LET S == States(m.L)
+    THEN LET S == SM(m)
              raw == [w \in S |-> MonoProd(m, w)]
              tot == RSumSet(S, raw)
          IN  [w \in S |-> RDiv(raw[w], tot)]
@@ -103,14 +110,14 @@ Weight(m, wp, i, j) ==
           [] m.kind = "monomer"     -> m.pi[<<j[p]>>]
           [] m.kind = "monomers"    -> m.pi[<<PosName(p), j[p]>>]
           [] m.kind = "conditional" ->
-                LET ctx == {k \in States(m.L) : \A q \in 1..m.L : q # p => k[q] = j[q]}
+                LET ctx == {k \in SM(m) : \A q \in 1..m.L : q # p => k[q] = j[q]}
                 IN  RDiv(wp[j], RSumSet(ctx, wp))
           [] m.kind = "none"        -> One
 
 Compute(m) ==
-    LET S    == States(m.L)
+    LET S    == SM(m)
         wp   == WordProbs(m)
-        raw  == [i \in S |-> [j \in S |-> IF Inst(i, j) THEN RMul(Factor(m.params, i, j), Weight(m, wp, i, j)) ELSE Zero]]
+        raw  == [i \in S |-> [j \in S |-> IF Inst(i, j) THEN RMul(Factor(m.gc, m.params, i, j), Weight(m, wp, i, j)) ELSE Zero]]
         rows == [i \in S |-> RSumSet(S, raw[i])]
         mu   == RSumSet(S, [i \in S |-> RMul(wp[i], rows[i])])
         Q    == [i \in S |-> [j \in S |-> IF i = j THEN RNeg(RDiv(rows[i], mu)) ELSE RDiv(raw[i][j], mu)]]
@@ -129,7 +136,7 @@ EvalT == /\ k < Len(Instances) + 1
 (* one record per instance: the off-diagonal non-zero cells, the diagonal, the word probs *)
 Cells(rep) == {<<i, j>> \in rep.S \X rep.S : i = j \/ rep.Q[i][j] # Zero}
 Eval == EvalT /\ Emit([act |-> "Q", name |-> Instances[k].name, L |-> Instances[k].L, kind |-> Instances[k].kind,
-                       params |-> Instances[k].params, tag |-> Instances[k].tag,
+                       params |-> Instances[k].params, tag |-> Instances[k].tag, gc |-> Instances[k].gc,
                        pi |-> {<<w, Instances[k].pi[w]>> : w \in DOMAIN Instances[k].pi}, mu |-> r.mu,
                        wp |-> {<<w, r.wp[w]>> : w \in r.S},
                        cells |-> {<<c[1], c[2], r.Q[c[1]][c[2]]>> : c \in Cells(r)}])
